@@ -697,3 +697,80 @@ def walrus_binds_before(root: ast.AST, use: ast.Name) -> bool:
         if id(wbranch) in order and id(ubranch) in order and order.index(id(wbranch)) < order.index(id(ubranch)):
             return True
     return False
+
+
+# ------------------------------------------------------------ single-caller context
+def unique_caller(ctx, f):
+    """(caller, call node) when the private function ``f`` has exactly one call site in the package, else None.
+    A private function with one call site is a named piece of its caller: its parameters *are* the caller's arguments."""
+    if not f.name.startswith("_") or f.name.startswith("__") or isinstance(f.node, ast.Lambda):
+        return None
+    sites = ctx.cg.callers(f)
+    if len(sites) != 1 or sites[0][0] is f:
+        return None
+    return sites[0]
+
+
+def contextual(ctx, f, t, depth: int = 0):
+    """``t`` (a term built in ``f``) with the parameters of ``f`` replaced by the caller's argument values while
+    ``f`` is a private function with a single call site (transitively, three levels): the value as the caller sees it."""
+    from .callgraph import _is_bound_call, bind_args
+    from .terms import _subst
+
+    cur_f, cur_t = f, t
+    for _ in range(3 - depth):
+        uc = unique_caller(ctx, cur_f)
+        if uc is None:
+            break
+        caller, call = uc
+        ct = ctx.X.at(caller, call)
+        if ct[0] != "call":
+            break
+        bound = bind_args(cur_f, ct, bound=_is_bound_call(ct, cur_f))
+        mapping = {("param", cur_f.qualname, p_): a_ for p_, a_ in bound.items() if a_ is not None}
+        if not mapping:
+            break
+        cur_t = _subst(cur_t, mapping)
+        cur_f = caller
+    return cur_t, cur_f
+
+
+def enclosing_ifs_ctx(ctx, f, node):
+    """(function, If statement) for the `if`s enclosing ``node`` in ``f`` and, through single call sites, in its callers."""
+    from .model import parent
+
+    cur_f, cur_n = f, node
+    for _ in range(4):
+        cur = parent(cur_n)
+        while cur is not None and cur is not cur_f.node:
+            if isinstance(cur, ast.If):
+                yield cur_f, cur
+            cur = parent(cur)
+        uc = unique_caller(ctx, cur_f)
+        if uc is None:
+            return
+        cur_f, cur_n = uc
+
+
+def context_chain(ctx, f, t):
+    """(function, term) level by level: ``t`` in ``f``, then as the single caller of ``f`` sees it, and so on (see contextual)."""
+    from .callgraph import _is_bound_call, bind_args
+    from .terms import _subst
+
+    cur_f, cur_t = f, t
+    yield cur_f, cur_t
+    for _ in range(3):
+        uc = unique_caller(ctx, cur_f)
+        if uc is None:
+            return
+        caller, call = uc
+        ct = ctx.X.at(caller, call)
+        if ct[0] != "call":
+            return
+        bound = bind_args(cur_f, ct, bound=_is_bound_call(ct, cur_f))
+        mapping = {("param", cur_f.qualname, p_): a_ for p_, a_ in bound.items() if a_ is not None}
+        if not mapping:
+            return
+        cur_t = _subst(cur_t, mapping)
+        cur_f = caller
+        yield cur_f, cur_t
